@@ -34,6 +34,12 @@ type Obs struct {
 	Cfg         map[string]map[string]string `json:"cfg,omitempty"`
 	// Lookup: instance id -> what App.GetComponentByName returned after Run.
 	Lookup map[string]LookupObs `json:"lookup,omitempty"`
+	// LoggerSet: instance id -> its logger-tagged field was set by the container.
+	LoggerSet map[string]bool `json:"loggerSet,omitempty"`
+	// ByIface: interface name -> objects returned by GetComponents(InterfaceType(...)) after
+	// Run; ByIfaceErr: the query failed (it creates lazy components, which may fail).
+	ByIface    map[string][]string `json:"byIface,omitempty"`
+	ByIfaceErr map[string]bool     `json:"byIfaceErr,omitempty"`
 	// Frame: descriptions of frame fields that changed.
 	Frame []string `json:"frame,omitempty"`
 	// Get: effective configuration leaves as seen through App.Get.
